@@ -471,7 +471,7 @@ def run(ctx):
         corpus = [l.strip() for l in open(os.path.join(HERE, "corpus.ops")) if l.strip() and not l.startswith("#")]
         for f in load_findings():
             corpus += f.get("replay", {}).get("ops", [])
-        n = ctx.scale(6000, 200000)
+        n = ctx.scale(4000, 150000)
         cases = [gen_case(ctx.rng) for _ in range(n)]
         ops = corpus + [fmt(c) for c in cases]
         tags = [["corpus"]] * len(corpus) + [c.tags for c in cases]
